@@ -47,7 +47,8 @@ Qed.
     soundscript export independent of earlier lazy reads, VMT files of parameter-only materials, every structured line of the
     soundscript and choreo text writers, every SMD line. *)
 From SV Require Fmt.C20Property Fmt.VmtQuote Fmt.VmtQuoteProofs Fmt.TextLines Fmt.TextLinesProofs Fmt.SmdTpl Fmt.SmdWords
-  KV.KvBase KV.KvLex KV.KvSym KV.KvLexProofs.
+  Fmt.VmtBlocks Fmt.VmtBlocksProofs KV.KvBase KV.KvLex KV.KvSym KV.KvLexProofs.
+Module VB := Fmt.VmtBlocks. Module VBP := Fmt.VmtBlocksProofs.
 Module P := Fmt.C20Property. Module VQ := Fmt.VmtQuote. Module VQP := Fmt.VmtQuoteProofs. Module TL := Fmt.TextLines.
 Module TLP := Fmt.TextLinesProofs. Module ST := Fmt.SmdTpl. Module SW := Fmt.SmdWords.
 
@@ -55,7 +56,7 @@ Lemma premises_split : forall g, P.premises g = true ->
   CS.cfg_okb (P.g_cmdseq g) = true /\ SC.icfg_okb (P.g_image g) = true /\ SK.guard_okb (P.g_snd_guard g) = true /\
   SK.blocks_okb (P.g_snd_blocks g) = true /\ KT.tables_ok (P.g_tables g) = true /\ forallb CQ.all_stable (P.g_quant g) = true /\
   VQ.nq_okb (P.g_vmt_nq g) = true /\ forallb TL.items_ok (P.g_snd_lines g) = true /\ forallb TL.items_ok (P.g_cho_lines g) = true /\
-  forallb P.smd_line_okb (P.g_smd_lines g) = true.
+  forallb P.smd_line_okb (P.g_smd_lines g) = true /\ VB.bcfg_okb (P.g_vmt_blocks g) = true /\ VB.bcfg_shape_okb (P.g_vmt_blocks g) = true.
 Proof.
   intros g H. unfold P.premises in H. rewrite !andb_true_iff in H. tauto.
 Qed.
@@ -103,12 +104,20 @@ Theorem property :
      KvLex.lex_all E (VQ.vmt_file (P.g_vmt_nq g) shader ps) = (VQ.vmt_tokens shader ps, None)) /\
   (forall s1 p1 s2 p2, VQP.shader_ok s1 = true -> VQP.params_ok (P.g_vmt_nq g) p1 = true -> VQP.shader_ok s2 = true ->
      VQP.params_ok (P.g_vmt_nq g) p2 = true -> VQ.vmt_file (P.g_vmt_nq g) s1 p1 = VQ.vmt_file (P.g_vmt_nq g) s2 p2 -> s1 = s2 /\ p1 = p2) /\
+  (* VMT with sub-blocks and proxies: the file is read as shader, brace, the pairs, the canonical tokens of every block (name, brace,
+     children, brace / name, value), the Proxies frame with its blocks, brace; and a reader of such tokens gives the trees back *)
+  (forall E shader ps blocks proxies, KvSym.esc_ok E = true -> VQP.shader_ok shader = true -> VQP.params_ok (P.g_vmt_nq g) ps = true ->
+     forallb (VB.tree_ok (P.g_vmt_blocks g)) blocks = true -> forallb (VB.tree_ok (P.g_vmt_blocks g)) proxies = true ->
+     KvLex.lex_all E (VB.vmt_file_b E (P.g_vmt_blocks g) (P.g_vmt_nq g) shader ps blocks proxies)
+       = (VB.vmt_tokens_b (P.g_vmt_blocks g) shader ps blocks proxies, None) /\
+     (forall t, VB.block_toks (P.g_vmt_blocks g) t = VB.kv_toks t) /\
+     (forall st, VBP.reads (flat_map VB.kv_toks blocks ++ [KvBase.TBC; KvBase.TNL] ++ st) blocks st)) /\
   (* soundscripts and text scenes: every structured line the writers can emit is lexed back as its keywords and field values *)
   (forall E ind its vs l, KvSym.esc_ok E = true -> KvSym.ws_only ind = true -> In its (P.g_snd_lines g ++ P.g_cho_lines g) ->
      TL.vals_ok its vs = true -> KvLexProofs.lexes E l (TL.render E ind its vs) (TL.toks its vs) (TL.lines its l)).
 Proof.
-  intros g H. destruct (premises_split g H) as (Hc & Hic & Hg & Hws & Hts & Hqs & Hnq & Hsl & Hcl & Hsmd).
-  refine (conj _ (conj _ (conj _ (conj _ (conj _ (conj _ (conj _ (conj _ (conj _ (conj _ (conj _ (conj _ (conj _ _))))))))))))).
+  intros g H. destruct (premises_split g H) as (Hc & Hic & Hg & Hws & Hts & Hqs & Hnq & Hsl & Hcl & Hsmd & Hvb & Hvs).
+  refine (conj _ (conj _ (conj _ (conj _ (conj _ (conj _ (conj _ (conj _ (conj _ (conj _ (conj _ (conj _ (conj _ (conj _ _)))))))))))))).
   - intros v Hv. destruct (CSP.file_roundtrip _ v Hc (CSP.repr_okb_ok _ v Hv)) as (b & Hw & Hp). exists b. repeat split; try assumption.
     intros v' Hp'. exact (CSP.second_generation _ v b v' Hc (CSP.repr_okb_ok _ v Hv) Hw Hp').
   - intros is_dict version pool kes Hok.
@@ -133,6 +142,10 @@ Proof.
     + right. split; [assumption|]. intros a b idx nm par -> Hi Hnm Hpar. exact (SW.nodes_line_reads_back a b idx nm par Hn Hi Hnm Hpar).
   - intros E shader ps Hsh Hps. exact (VQP.vmt_file_reads_back E _ shader ps Hnq Hsh Hps).
   - intros s1 p1 s2 p2 H1 H2 H3 H4 Heq. exact (VQP.vmt_file_determines_material _ s1 p1 s2 p2 Hnq H1 H2 H3 H4 Heq).
+  - intros E shader ps blocks proxies HE Hsh Hps Hb Hp. split; [|split].
+    + exact (VBP.vmt_file_b_reads_back E _ HE Hvb _ shader ps blocks proxies Hnq Hsh Hps Hb Hp).
+    + exact (VBP.block_toks_canonical _ Hvs).
+    + intro st. exact (VBP.read_blocks_kv blocks st).
   - intros E ind its vs l HE Hind Hin Hv. apply in_app_or in Hin. destruct Hin as [Hin | Hin].
     + exact (TLP.lines_lex E ind _ HE Hind Hsl its vs l Hin Hv).
     + exact (TLP.lines_lex E ind _ HE Hind Hcl its vs l Hin Hv).
@@ -163,17 +176,18 @@ Definition pinned_objects : P.gen_objects := P.mkGen pinned_cmdseq SC.ref_cfg SK
   [[ST.ConvInt; ST.Lit [32;34]%N; ST.ConvStr; ST.Lit [34;32]%N; ST.ConvInt];
    [ST.ConvInt; ST.Lit [32]%N; ST.ConvFloat 6; ST.Lit [32]%N; ST.ConvFloat 6; ST.Lit [32]%N; ST.ConvFloat 6; ST.Lit [32;32]%N; ST.ConvFloat 6;
     ST.Lit [32]%N; ST.ConvFloat 6; ST.Lit [32]%N; ST.ConvFloat 6];
-   [ST.Lit [116;105;109;101;32]%N; ST.ConvInt]; [ST.ConvStr]; [ST.Lit [101;110;100]%N]].
+   [ST.Lit [116;105;109;101;32]%N; ST.ConvInt]; [ST.ConvStr]; [ST.Lit [101;110;100]%N]]
+  VB.ref_bcfg.
 Example premises_satisfiable : P.premises pinned_objects = true.
 Proof. vm_compute. reflexivity. Qed.
 (** ... and the premise is not trivially true: the record with the table sorted by the dict key (seeded faults c20_1/3/5/7), with the
     version-2 test by presence (c20_4/8) or with Bone compared through casefold (c20_6) is rejected *)
 Example premises_reject_the_seeded_fault_classes :
   P.premises (P.mkGen pinned_cmdseq SC.cfg_dict_key SKP.ref_guard SKP.ref_blocks (P.g_tables pinned_objects) (P.g_quant pinned_objects)
-                VQP.ref_nq [] [] []) = false /\
+                VQP.ref_nq [] [] [] VB.ref_bcfg) = false /\
   P.premises (P.mkGen pinned_cmdseq SC.ref_cfg SKP.presence_guard SKP.ref_blocks (P.g_tables pinned_objects) (P.g_quant pinned_objects)
-                VQP.ref_nq [] [] []) = false /\
+                VQP.ref_nq [] [] [] VB.ref_bcfg) = false /\
   P.premises (P.mkGen pinned_cmdseq SC.ref_cfg SKP.ref_guard SKP.ref_blocks
                 [("smd.Mesh.export:bone_indexes", [], ["name"], DD.KFields [("name", "casefold")])]%string (P.g_quant pinned_objects)
-                VQP.ref_nq [] [] []) = false.
+                VQP.ref_nq [] [] [] VB.ref_bcfg) = false.
 Proof. vm_compute. repeat split; reflexivity. Qed.
